@@ -267,6 +267,8 @@ impl<V: VringT<GM> + Send + Sync + 'static> VhostUserBackendMut for TBMut<V> {
 pub struct Peer {
     pub sock: UnixStream,
     pub reply_ack: bool,
+    /// the backend offered VHOST_USER_F_PROTOCOL_FEATURES
+    pub offered_pf: bool,
 }
 
 pub struct Reply {
@@ -279,6 +281,10 @@ pub struct Reply {
 impl Peer {
     /// send one request; wait for its reply / ack (if any is due)
     pub fn request(&mut self, code: u32, body: &[u8], fds: &[i32], has_reply: bool) -> Reply {
+        if code == 16 && body.len() == 8 {
+            // the acknowledgement of SET_PROTOCOL_FEATURES itself already follows the new setting
+            self.reply_ack = self.offered_pf && le64(body, 0) & 8 != 0;
+        }
         let need = !has_reply && self.reply_ack;
         let mut bytes = Vec::new();
         bytes.extend_from_slice(&code.to_le_bytes());
@@ -293,8 +299,14 @@ impl Peer {
             };
         }
         if !has_reply && !need {
+            // no acknowledgement is due: synchronise with a GET_FEATURES round trip instead. The daemon
+            // ends the connection when a request fails, so an answered ping means the request succeeded.
+            if code == 1 {
+                return Reply { status: "none".into(), body: vec![], fds: vec![] };
+            }
+            let ping = self.request(1, &[], &[], true);
             return Reply {
-                status: "none".into(),
+                status: if ping.status == "ok" { "ok".into() } else { "closed".into() },
                 body: vec![],
                 fds: vec![],
             };
@@ -430,6 +442,7 @@ pub fn make_rig<V: VringT<GM> + Clone + Send + Sync + 'static>(cfg: Cfg, adapter
         peer: Peer {
             sock,
             reply_ack: false,
+            offered_pf: false,
         },
         nthreads,
         barrier: Vec::new(),
@@ -479,11 +492,11 @@ impl<V: VringT<GM> + Clone + Send + Sync + 'static> Rig<V> {
     pub fn negotiate(&mut self, feats: u64, pf: u64) -> Value {
         let r1 = self.peer.request(1, &[], &[], true);
         let offered = if r1.body.len() == 8 { le64(&r1.body, 0) } else { 0 };
+        self.peer.offered_pf = offered >> 30 & 1 == 1;
         let r2 = self.peer.request(2, &u64b(feats), &[], false);
         let r3 = self.peer.request(15, &[], &[], true);
         let offered_pf = if r3.body.len() == 8 { le64(&r3.body, 0) } else { 0 };
         let _ = self.peer.request(16, &u64b(pf), &[], false);
-        self.peer.reply_ack = offered >> 30 & 1 == 1 && pf & 8 != 0;
         json!({"offered": limbs(offered), "offered_pf": limbs(offered_pf), "set_features": r2.status})
     }
 
